@@ -3,6 +3,7 @@ package vegeta
 import (
 	"fmt"
 	"math"
+	"math/bits"
 	"time"
 )
 
@@ -61,14 +62,24 @@ func (cp ConstantPacer) Pace(elapsed time.Duration, hits uint64) (time.Duration,
 		// Running behind, send next hit immediately.
 		return 0, false
 	}
-	interval := uint64(cp.Per.Nanoseconds() / int64(cp.Freq))
-	if math.MaxInt64/interval < hits {
+	// The next hit is due at (hits+1) * Per / Freq, rounded up to a whole nanosecond.
+	// Computing it in 128 bits avoids dividing by a zero interval when Freq > Per,
+	// drifting ahead of the rate when Freq doesn't divide Per, and overflowing.
+	n := hits + 1
+	hi, lo := bits.Mul64(n, uint64(cp.Per))
+	if n == 0 || hi >= uint64(cp.Freq) {
 		// We would overflow delta if we continued, so stop the attack.
 		return 0, true
 	}
-	delta := time.Duration((hits + 1) * interval)
+	next, rem := bits.Div64(hi, lo, uint64(cp.Freq))
+	if next >= math.MaxInt64 {
+		return 0, true
+	}
+	if rem != 0 {
+		next++
+	}
 	// Zero or negative durations cause time.Sleep to return immediately.
-	return delta - elapsed, false
+	return time.Duration(next) - elapsed, false
 }
 
 // Rate returns a ConstantPacer's instantaneous hit rate (i.e. requests per second)
